@@ -15,7 +15,7 @@ cp "$MUT/patch.diff" "$OUT/patch.diff"
 [ -f "$MUT/demo_test.go" ] && cp "$MUT/demo_test.go" "$OUT/demo_test.go"
 [ -f "$MUT/NOTES.md" ] && cp "$MUT/NOTES.md" "$OUT/NOTES.md"
 git -C /repo worktree add -q --detach "$WT" HEAD || exit 9
-cleanup() { git -C /repo worktree remove --force "$WT" >/dev/null 2>&1; git -C /repo checkout -- . ; }
+cleanup() { git -C /repo worktree remove --force "$WT" >/dev/null 2>&1; git -C /repo reset -q --hard HEAD ; }
 trap cleanup EXIT
 pkg=$(grep -m1 '^package ' "$OUT/demo_test.go" 2>/dev/null | awk '{print $2}' | sed 's/_test$//')
 [ -z "$pkg" ] && pkg=boltz
@@ -28,7 +28,7 @@ if [ "$R_APPLY" = ok ]; then
   if [ -f "$OUT/demo_test.go" ]; then
     cp "$OUT/demo_test.go" "$WT/$pkg/zz_demo_test.go"
     (cd "$WT" && go test -vet=off -count=1 ./$pkg/ >"$OUT/demo_with.log" 2>&1) && R_DEMO_WITH=pass || R_DEMO_WITH=fail
-    (cd "$WT" && git checkout -- . && go test -vet=off -count=1 ./$pkg/ >"$OUT/demo_without.log" 2>&1) && R_DEMO_WITHOUT=pass || R_DEMO_WITHOUT=fail
+    (cd "$WT" && git reset -q --hard HEAD && go test -vet=off -count=1 ./$pkg/ >"$OUT/demo_without.log" 2>&1) && R_DEMO_WITHOUT=pass || R_DEMO_WITHOUT=fail
   fi
 fi
 RESULTS=""
@@ -39,13 +39,13 @@ if [ "$R_APPLY" = ok ] && apply /repo; then
     RESULTS="$RESULTS\"$id\": $code, "
     echo "  check $id -> exit $code"
   done
-  git -C /repo checkout -- .
+  git -C /repo reset -q --hard HEAD
 fi
 cat > "$OUT/meta.json" <<EOF
 {"id": "$NAME", "property": "$PROP", "source": "$MUT",
  "confirmed": {"applies": "$R_APPLY", "builds": "$R_BUILD", "existing_suite_with_change": "$R_SUITE", "demo_with_change": "$R_DEMO_WITH", "demo_without_change": "$R_DEMO_WITHOUT"},
  "check_exit_codes": {${RESULTS%, }},
- "ran": "seedtest.sh: scratch worktree confirmation, then git -C /repo apply; ./check <id> quick; git -C /repo checkout -- ."}
+ "ran": "seedtest.sh: scratch worktree confirmation, then git -C /repo apply; ./check <id> quick; git -C /repo reset -q --hard HEAD"}
 EOF
 rm -f "$OUT"/suite_with.log
 cat "$OUT/meta.json"
